@@ -46,6 +46,15 @@ def uf_apply(tag, items, out_len):
     ex = core.CUR
     if ex is not None:
         ex.uf_apps.append((tag, list(items)))
+        if getattr(ex, "collision_free", False):
+            # stated assumption "no collision among the hash inputs that occur": Hinv(H(x)) = x for every applied x
+            ikey = ("inv",) + key
+            g = _UF.get(ikey)
+            if g is None:
+                g = z3.Function("Hinv_%s_%d" % (tag, n), z3.BitVecSort(8 * out_len), z3.BitVecSort(8 * n))
+                _UF[ikey] = g
+            ex.pc.append(g(r) == arg)
+            ex.model = None
     out = []
     for i in range(out_len):
         hi = 8 * (out_len - i) - 1
